@@ -275,7 +275,7 @@ def cases(draw, sweep=False):
 def parts(tier):
     return [
         Part("limits", run, strategy=cases(sweep=(tier == "thorough")),
-             n={"quick": 480, "thorough": 16 * 150},
+             n={"quick": 480, "thorough": 16 * 300},
              require={"partial-inclusion": 80, "tc-set": 80, "dropped-only-additional": 20, "padded": 50,
                       "padded+tsig": 15, "tsig": 50, "toobig": 80, "limit<512": 50},
              shards={"quick": 16, "thorough": 16}),
